@@ -203,12 +203,18 @@ def _operand_is_array(e: ast.AST) -> bool:
     return True
 
 
-RULES = [r12_1, r12_2, r12_3]
+def r12_4(repo: Repo) -> RuleResult:
+    from .c08 import nested_offsets
+
+    return nested_offsets(repo, "R12.4")
+
+
+RULES = [r12_1, r12_2, r12_3, r12_4]
 CLAIM = (
     "R12.1 loop-carried dependence analysis (upward-exposed locals + outside objects mutated inside, with callee effect "
     "summaries) over every row / block / chunk loop of the row-wise transforms and the kernel row loops in the table: the only "
     "cross-iteration channels are append-only accumulators, stores indexed by the induction variable and position cursors; "
     "R12.2 prange bodies write only at positions indexed by the induction variable; R12.3 batch-axis reductions feeding loop "
-    "control are confined to the reviewed table (Sinkhorn batch stopping test)."
+    "control are confined to the reviewed table (Sinkhorn batch stopping test); R12.4 a chunk loop nested in a block loop addresses the whole input absolutely (block start + j * B) or the block itself relatively - never the whole input with block-relative positions."
 )
 NOT_DECIDED = "value-level equality of concatenated vs separate transforms (follows from independence for everything but the reviewed Sinkhorn coupling, which is bounded by its tolerance, not decided here)."
